@@ -303,7 +303,13 @@ def run_jobs(jobs, rundir, nproc):
             cwd = os.path.join(rundir, "cwd." + name)
             os.makedirs(cwd, exist_ok=True)
             f = open(logpath, "w")
-            p = subprocess.Popen(cmd, cwd=cwd, env=env, stdout=f, stderr=subprocess.STDOUT)
+            pre = None
+            if part.get("rlimit_as_gb"):
+                lim = int(part["rlimit_as_gb"]) << 30
+                def pre(lim=lim):
+                    import resource
+                    resource.setrlimit(resource.RLIMIT_AS, (lim, lim))
+            p = subprocess.Popen(cmd, cwd=cwd, env=env, stdout=f, stderr=subprocess.STDOUT, preexec_fn=pre)
             running[nxt] = (p, f, time.time(), tmo, logpath)
             nxt += 1
         time.sleep(0.05)
